@@ -164,7 +164,10 @@ def check_rename(pre, post):
     if new is None:
       out.append(("C16.structure_unchanged", {"column": c["colId"], "why": "not fetched afterwards"}))
       break
-    row = [r for r in old if old[r] != new.get(r)][:1]
+    # a cell that already held an error (e.g. a formula naming a column that does not exist) has
+    # no value to keep
+    row = [r for r in old if old[r] != new.get(r) and old[r] != ("E",)][:1]
+    if not row: continue
     out.append(("C16.values_unchanged", {
       "table": pre["tabs"].get(c["table"]), "column": c["colId"],
       "column_after": post["cols"][key]["colId"], "isFormula": c["isFormula"],
@@ -316,11 +319,19 @@ class C16Monitor(explore.Monitor):
 
   def before(self, st, e, bundle):
     st["kind"] = rename_kind(bundle)
-    st["pre"] = doc_state(e) if st["kind"] else None
+    st["pre"] = doc_state(e)
 
   def after(self, st, e, bundle, group, exc):
-    if not st.get("kind") or exc is not None or st.get("tainted"): return []
+    if st.get("tainted"): return []
     pre, st["pre"] = st["pre"], None
+    if exc is not None:
+      # a failed bundle must leave no trace (C04); if it did, later comparisons would blame the
+      # next rename for it: stop checking this history
+      if doc_state(e) != pre:
+        st["tainted"] = True
+        ST["tainted_by_failed_bundle"] += 1
+      return []
+    if not st.get("kind"): return []
     post = doc_state(e)
     res = check_rename(pre, post)
     fails = res[0]
@@ -352,7 +363,8 @@ class C16Monitor(explore.Monitor):
     return "%s:%s" % (clause.split(".", 1)[1], detail.get("root") or detail.get("kind"))
 
 
-ST = {"renames_checked": 0, "renames_effective": 0, "formulas_rewritten": 0, "untokenizable": 0}
+ST = {"renames_checked": 0, "renames_effective": 0, "formulas_rewritten": 0, "untokenizable": 0,
+      "tainted_by_failed_bundle": 0}
 _REPORTED = set()
 _KNOWN = []
 
@@ -412,6 +424,7 @@ def main():
   cov["renames_that_changed_an_id"] = tot["renames_effective"]
   cov["formula_texts_rewritten_and_token_checked"] = tot["formulas_rewritten"]
   cov["untokenizable_formulas_skipped"] = tot["untokenizable"]
+  cov["histories_abandoned_after_a_failed_bundle_left_a_trace"] = tot["tainted_by_failed_bundle"]
   cov["exhaustive"] = False
   if tot["renames_checked"] == 0:
     rep.undecided_obligation("C16.values_unchanged", "no rename bundle was checked")
